@@ -362,7 +362,30 @@ def engine(name, projector, n_quick, n_thorough, **kw):
     return d
 
 
+class MwOnlyProj:
+    """of the buffer engine, only the middleware runs (bodies through request/response buffering)"""
+    def step(self, kind, op, a, b):
+        if kind in ('reqmw', 'respmw'):
+            return a, b, True
+        return None
+
+
 PROPS = {
+    'C13': dict(
+        engines=[engine('rewrite', lambda: AllProj(lambda k, op, b: not b.endswith('404') and 'parse-error' not in b), 60, 6000),
+                 engine('buffer', MwOnlyProj, 40, 2000)],
+        rule="engine rewrite: per case 25 request-targets built from segments rich in percent-encoded octets (%2F %2f %7E %25 %20 %C3%A9, "
+             "stray %, invalid hex), reserved and unsafe characters, dot segments, doubled and trailing slashes, the prefix as first and "
+             "later segment and spelled with an encoded letter, x raw queries (semicolons, stray %, empty, '?', '#') sent to services with "
+             "and without a path prefix, with and without stripping, through the full handler chain to an in-memory target: the "
+             "request-URI the target saw is compared; 10 header sets (hop-by-hop, Connection-listed, forwarding headers, request id/start, "
+             "User-Agent, Te, Upgrade, duplicates, empty values) x header forwarding on/off x TLS on/off x remote address forms: the "
+             "header map, Host, method and body the target saw; 6 target responses (status, headers incl. hop-by-hop, binary body): what "
+             "the client got. Engine buffer: bodies through request/response buffering. Non-trivial = a request that was forwarded.",
+        assumptions=["net/url, ReverseProxy header handling and the Transport's own header writing are modelled (Std/Url, Model/Rewrite)",
+                     "raw paths containing bytes outside Go's validEncoded set are re-encoded from the decoded path (scope note, tested)",
+                     "X-Request-Start value and UUID freshness are checked for format only"],
+    ),
     'C01': dict(engines=[proxy(C01Proj)], assumptions=PROXY_ASSUME,
                 rule=RULE_PROXY + "Compared for C01: deploy results and which deploy generation's targets receive client requests. "
                      "Non-trivial = a deploy fails its health wait, or a request reaches a target."),
